@@ -6,8 +6,11 @@ CONSTANTS
   DevChain = FALSE
   DevDang = FALSE
   DevUnder = FALSE
-  Allowed = {"ok"}
+  DevDup = TRUE
+  DevClash = TRUE
+  DevBmDang = TRUE
+  Allowed = {"ok", "pageorder.dupkids", "pageorder.numclash", "bookmark.dangling.capture"}
   Emit = TRUE
   EmitMod = 8
-INVARIANTS Refines Consistent FunctionForm EmitInv
+INVARIANTS Refines Consistent FunctionForm RepairedRefines EmitInv
 CHECK_DEADLOCK FALSE
